@@ -16,6 +16,20 @@ def c18_key(aid, events, outs):
     return "c18:%s:%s" % (aid, ",".join("%s=%s" % (k, v) for k, v in sorted(m.items()) if k.startswith("shortcut")))
 
 
+def c11_key(aid, events, outs):
+    m = {e["name"]: e["value"] for e in events}
+    role = {"mode_main": "main", "mode_impa": "import", "mode_impb": "import", "mode_dep": "import", "mode_v0": "version"}
+    bad = set()
+    for k, v in m.items():
+        for rk, r in role.items():
+            if k.endswith(rk) and v != "ok":
+                bad.add("%s:%s" % (r, v))
+    bad = sorted(bad)
+    if any(k.endswith("evolution_bad") and v == "true" for k, v in m.items()):
+        bad.append("evolution")
+    return "c11:%s:%s" % (aid, "+".join(bad))
+
+
 def c02_key(aid, events, outs):
     o = {x["key"]: x["val"] for x in outs}
     if aid.endswith("untagged-only-if-unambiguous"):
@@ -24,7 +38,20 @@ def c02_key(aid, events, outs):
     return "c02:%s:%s" % (aid, ",".join(v for k, v in sorted(m.items()) if "prim" in k or "casekind" in k))
 
 
+C11_ASSUME = ["gosym: LoadPackage, ParsePackageContents, Validate, ValidateEvolution, python.Generate, updatePackageInfoFromArgs are scenario-driven stubs "
+              "(verifRepl_*); generateImpl, validatePackage, parseAndFlattenNamespaces, parsePackageNamespaces, flattenNamespaces, outputJson, WriteFileIfNeeded are the real code",
+              "each explored path is replayed natively on real package directories with no stubs (python + json outputs)",
+              "scenario: main imports impa (imports dep) and impb, optional previous version v0; cpp/matlab outputs not configured"]
+
 PARTS = {
+    "C11": [
+        (G, "gosym_part", dict(name="c11_all_or_nothing", entry="internal/cmd.VerifC11", args_quick=(1,), args_thorough=(1,), key_fn=c11_key,
+                               extra_quick=("-replay-sample", "200"), extra_thorough=("-replay-sample", "400"),
+                               required_sites=("invalid-package-fails", "invalid-package-writes-nothing", "valid-package-succeeds", "failure-writes-nothing"),
+                               assumptions=C11_ASSUME,
+                               desc="generateImpl on a package graph where each package is ok / has a parse error / has a validation error (symbolic), evolution may fail, "
+                                    "outputs may be disabled, output dirs empty or pre-populated: any error => non-nil error and no write under the output dirs")),
+    ],
     "C02": [
         (G, "gosym_part", dict(name="c02_union_tagging", entry="internal/zzverif.C02Union", args_quick=(2, 0, 0), args_thorough=(3, 1, 0),
                                extra_thorough=("-max-paths", "400000"), key_fn=c02_key,
@@ -97,6 +124,11 @@ NOTES = ("Every claim is bounded: 'holds' means unsat within the stated bound. E
 NOT_APPLICABLE = {}
 
 CLAIMS = {
+    "C11": dict(text="Bounded symbolic execution (gosym) of generateImpl/validatePackage/parse*Namespaces/outputJson/WriteFileIfNeeded over all failure placements "
+                     "(main, each import, nested import, previous version, evolution) x output configurations: an error anywhere gives a non-nil error and no write event; "
+                     "every path is replayed natively on real package directories.",
+                note="Leaf calls are stubs under gosym (listed in assumptions) and real in the native replay; partial output when a generator itself fails is out of scope "
+                     "(as in the property). One genuine defect (error in an imported package ignored) is triaged in known_findings.json."),
     "C02": dict(text="Bounded symbolic execution (gosym) of the union tag-or-not decision of both NDJSON generators on symbolic unions (2 cases quick, 3 + null thorough): "
                      "untagged iff the documented JSON kinds are pairwise disjoint; C++ and Python agree. Two genuine defects found this way were repaired (fix: commits).",
                 note="Decides the generator-side mapping only; the _ndjson.py converters themselves are checked by the pysym part when registered; the C++ NDJSON runtime "
